@@ -1,4 +1,5 @@
 import DtsVerif.Drv.Merge
+import DtsVerif.Drv.Sections
 /-! Line-protocol driver: one JSON request per line on stdin, one JSON reply per line on stdout. -/
 open Lean DtsVerif.Drv
 
@@ -7,6 +8,7 @@ def dispatch (op : String) (j : Json) : R Json :=
   | "merge.times" => opMergeTimes j
   | "merge.space" => opMergeSpace j
   | "merge.swapped" => opMergeSwapped j
+  | "sections.eval" => opSectionsEval j
   | _ => throw "bad-op"
 
 def handle (line : String) : String :=
